@@ -126,3 +126,9 @@ Fixpoint sel_mismatches (cases : list selcase) (i : N) : list (N * list N) :=
     if sel_ok c then sel_mismatches r (i + 1)
     else (i, [98%N]) :: sel_mismatches r (i + 1)
   end.
+
+(* ---- volume path (extracted to OCaml): one verdict per case ----
+   (model agrees with implementation, machine = unbounded version if in D) *)
+Definition verdict (c : case) : bool * bool :=
+  (match check_case c with [] => true | _ => false end,
+   negb (D_b (c_env c) (c_htlc c) && negb (res_same (run_m c) (run_s c)))).
